@@ -130,6 +130,12 @@ def run(run, binfo):
     n = 4000 if tier == 'quick' else 80000
     gens = [gen_case(rng) for _ in range(n)]
     gens += list(literal_scope())
+    # credential attributes whose names look like secrets (the debug dump masks such values in ITS copy)
+    for kind, creds in (('auth_token', {'auth_token': 'tv'}), ('user.password_expires_at', {'user': {'password_expires_at': 'tv'}}),
+                        ('token.secrets.id', {'token': {'secrets': {'id': 'tv'}}}), ('x_password', {'x_password': 'tv'})):
+        for rhs in ('tv', '***', 'other'):
+            gens.append((kind, [('lit', rhs)], {}, creds))
+            gens.append((kind, [('hole', 't')], {'t': rhs}, creds))
     # a left side that differs from a registered kind name only by letter case is a credential path like any other
     for kind in ('Role', 'ROLE', 'Rule', 'RULE', 'Http', 'rOLE'):
         for rhs in ('admin', 'x', 'never'):
@@ -150,7 +156,7 @@ def run(run, binfo):
         if not wf:
             run.count('ill_formed_template_skipped')
             continue
-        cases.append(base_case(rules={'r': [[kind + ':' + text]]}, target=tgt, creds=creds))
+        cases.append(base_case(rules={'r': [[kind + ':' + text]]}, target=tgt, creds=creds, debug=(len(cases) % 3 == 0)))
         wants.append(want)
     run.count('cases', len(cases))
     run.count('small_scope_cases', len(ss))
